@@ -29,7 +29,13 @@ RoundTrip == \A cp \in CodePoints : /\ Len(Encode(cp)) = ULen(cp)
                                      /\ cp >= MinCp(ULen(cp))
 EmitCps == PrintT(ToJson(<<1111111, SetToSeq(CodePoints)>>))
 Table == PrintT(ToJson(<<1212121, [n \in 1..6 |-> MinCp(n)], [n \in 1..6 |-> LeadMask(n)]>>))
+\* long structured strings: every multi-byte lead class (and 0xFE / 0xFF) followed by 0..9 continuation bytes and then
+\* nothing, an ASCII byte or a NUL - the decoder's window is the table's six bytes whatever follows
+Leads == {192, 223, 224, 239, 240, 247, 248, 251, 252, 253, 254, 255}
+LongStrs == {<<ld>> \o [i \in 1..k |-> c] \o tl : ld \in Leads, k \in 0..9, c \in {128, 191}, tl \in {<<>>, <<65>>, <<0>>}}
+EmitLong == \A s \in LongStrs : PrintT(ToJson(<<2222222, Len(s), s>>))
 ASSUME RoundTrip
+ASSUME EmitLong
 ASSUME EmitCps
 ASSUME Table
 =============================================================================
